@@ -140,6 +140,10 @@ fn icy_file(frame: &[u8], chunks: &[(String, Vec<u8>)]) -> Vec<u8> {
 }
 
 fn layer_header(title: &[u8], w: i32, h: i32, data_len: u64) -> Vec<u8> {
+    layer_header_fp(title, w, h, data_len, 0)
+}
+
+fn layer_header_fp(title: &[u8], w: i32, h: i32, data_len: u64, font_page: u16) -> Vec<u8> {
     let mut p = Vec::new();
     p.extend((title.len() as u32).to_le_bytes());
     p.extend_from_slice(title);
@@ -153,7 +157,7 @@ fn layer_header(title: &[u8], w: i32, h: i32, data_len: u64) -> Vec<u8> {
     p.extend(0i32.to_le_bytes());
     p.extend(w.to_le_bytes());
     p.extend(h.to_le_bytes());
-    p.extend(0u16.to_le_bytes());
+    p.extend(font_page.to_le_bytes());
     p.extend(data_len.to_le_bytes());
     p
 }
@@ -240,6 +244,16 @@ impl C10 {
                 // all 256 x 256 hex macro byte pairs, one first byte per case
                 C10Case { kind: "hexmacro".into(), values: vec![(k2 - 139) as u32], bytes: vec![], note: String::new() }
             }
+            395..=426 => {
+                // all surrogates again, on the font page of an embedded PSF2 font with more than 0xE000 glyphs (a loader that
+                // trusts "below the glyph count of the layer's font" meets the surrogate hole there)
+                let b = 0xD800 + (k2 as u32 - 395) * 64;
+                C10Case { kind: "icy-cells".into(), values: (b..b + 64).collect(), bytes: vec![], note: "first chunk, bigfont".into() }
+            }
+            427..=458 => {
+                let b = 0xD800 + (k2 as u32 - 427) * 64;
+                C10Case { kind: "icy-cells-cont".into(), values: (b..b + 64).collect(), bytes: vec![], note: "continuation chunk, bigfont".into() }
+            }
             _ => {
                 let mut rng = ctx.rng(k);
                 match rng.usize(6) {
@@ -308,13 +322,28 @@ impl C10 {
                 "icy-cells" | "icy-cells-cont" | "icy-title" | "icy-fontname" => {
                     let mut chunks: Vec<(String, Vec<u8>)> = Vec::new();
                     let w = c.values.len().max(1) as i32;
+                    let bigfont = c.note.contains("bigfont");
+                    let fp: u16 = if bigfont { 7 } else { 0 };
+                    if bigfont {
+                        // FONT_7: name + PSF2 font, 57400 glyphs of 8x1
+                        let n: u32 = 57_400;
+                        let mut f = Vec::new();
+                        f.extend(3u32.to_le_bytes());
+                        f.extend_from_slice(b"big");
+                        f.extend([0x72, 0xb5, 0x4a, 0x86]);
+                        for v in [0u32, 32, 0, n, 1, 1, 8] {
+                            f.extend(v.to_le_bytes());
+                        }
+                        f.extend((0..n).map(|i| i as u8));
+                        chunks.push(("FONT_7".into(), f));
+                    }
                     match c.kind.as_str() {
                         "icy-cells" => {
                             let mut cells = Vec::new();
                             for v in &c.values {
                                 cells.extend(long_cell(*v));
                             }
-                            let mut p = layer_header(b"L", w, 1, cells.len() as u64);
+                            let mut p = layer_header_fp(b"L", w, 1, cells.len() as u64, fp);
                             p.extend(cells);
                             chunks.push(("LAYER_0".into(), p));
                         }
@@ -324,7 +353,7 @@ impl C10 {
                             for _ in 0..w {
                                 first.extend(long_cell(0x41));
                             }
-                            let mut p = layer_header(b"L", w, 2, first.len() as u64);
+                            let mut p = layer_header_fp(b"L", w, 2, first.len() as u64, fp);
                             p.extend(first);
                             chunks.push(("LAYER_0".into(), p));
                             let mut cells = Vec::new();
@@ -473,7 +502,7 @@ impl Prop for C10 {
         "C10"
     }
     fn rule(&self) -> &'static str {
-        "after every case a raw-bits monitor reads every stored char of every layer, every glyph-table key and every composited cell as u32 (volatile read) and checks 0..=0xD7FF | 0xE000..=0x10FFFF, and re-validates the bytes of every String (titles, font names, macro bodies via hook H5, hyperlinks, palette strings) with str::from_utf8; the verdict-bearing build has debug assertions, so an invalid value passed to char::from_u32_unchecked aborts the worker (attributed to the case). cases: fill-rectangle (DECFRA) character parameter - every value 0..=0x110010 in thorough (every 4th in quick) plus all 2048 surrogates, boundaries, 2^k+-1 up to 2^31-1; all 65536 clipboard cell values; IcyDraw long-form cells with all surrogates / boundaries / random 32-bit values in first and continuation chunks; layer titles and font names with 8 invalid-UTF-8 classes and random bytes; font data of 1..2^17 glyphs (PSF1, PSF2, create_8, from_basic, re-encoders); all 256x256 hex-macro byte pairs; random DCS/OSC streams. distinct_nontrivial = distinct (kind, first value / payload, accepted count) fingerprints"
+        "after every case a raw-bits monitor reads every stored char of every layer, every glyph-table key and every composited cell as u32 (volatile read) and checks 0..=0xD7FF | 0xE000..=0x10FFFF, and re-validates the bytes of every String (titles, font names, macro bodies via hook H5, hyperlinks, palette strings) with str::from_utf8; the verdict-bearing build has debug assertions, so an invalid value passed to char::from_u32_unchecked aborts the worker (attributed to the case). cases: fill-rectangle (DECFRA) character parameter - every value 0..=0x110010 in thorough (every 4th in quick) plus all 2048 surrogates, boundaries, 2^k+-1 up to 2^31-1; all 65536 clipboard cell values; IcyDraw long-form cells with all surrogates / boundaries / random 32-bit values in first and continuation chunks (the surrogates also on the font page of an embedded PSF2 font with 57400 glyphs); layer titles and font names with 8 invalid-UTF-8 classes and random bytes; font data of 1..2^17 glyphs (PSF1, PSF2, create_8, from_basic, re-encoders); all 256x256 hex-macro byte pairs; random DCS/OSC streams. distinct_nontrivial = distinct (kind, first value / payload, accepted count) fingerprints"
     }
     fn meta(&self, ctx: &Ctx) -> Value {
         json!({"floor_evaluations": 1000, "floor_distinct": ctx.tier.pick(500u64, 2000u64),
@@ -483,7 +512,7 @@ impl Prop for C10 {
         self.frame = files::build_corpus().into_iter().find(|s| s.name == "tiny.icy").map(|s| s.bytes).unwrap_or_default();
         self.fill_step = ctx.tier.pick(4, 1);
         self.n_fill = (0x11_0010u64 / (64 * self.fill_step)) + 1;
-        self.n_fill + 395 + ctx.tier.pick(20_000, 200_000)
+        self.n_fill + 459 + ctx.tier.pick(20_000, 200_000)
     }
     fn run_case(&mut self, ctx: &mut Ctx, k: u64) {
         let case = self.case_for(ctx, k);
